@@ -11,6 +11,8 @@ RULE = ('one line = one whole operation history (`c08.hist`), one parameter set 
 ASSUMPTIONS = ['moduli are odd (the constructors take Odd<…>)',
                'const moduli are the fixed table in harness/src/ops/c08.rs (impl_modulus! needs literals)',
                'boxed operands have the precision of the modulus (documented precondition, debug_assert only)',
+               'Montgomery representatives written with from_montgomery / as_montgomery_mut are canonical (< m): they are caller-supplied by documentation and the property constrains canonical values only',
+               'lincomb_vartime gets at least one product (the runtime and boxed forms assert it)',
                '`c08.hook.*` lines call almost_montgomery_mul(_by_one) / montgomery_reduction_inner on raw limb slices (unreduced inputs included) and read the private parameter fields, through crypto_bigint::verif_hooks']
 
 HERE = os.path.dirname(os.path.abspath(__file__))
@@ -58,9 +60,59 @@ BIN_FORMS = ['m', 'rr', 'rv', 'vr', 'vv']
 ASSIGN_FORMS = ['a', 'av']
 
 
+REP_OF = {'dyn': 'dyn', 'dynv': 'dyn', 'dynt': 'dyn', 'const': 'const', 'boxed': 'boxed', 'boxedv': 'boxed', 'boxedt': 'boxed'}
+
+
+def one_step(rng, rep, size, n, m, steps):
+    """append one step of the original machine (possibly none); returns (size, rep)"""
+    h = lambda: rng.randrange(size) if rng.randrange(3) else size - 1 - rng.randrange(min(size, 3))
+    c = rng.randrange(100)
+    if c < 6:
+        steps.append('new,' + hx(operand(rng, n, m))); size += 1
+    elif c < 8:
+        steps.append('zero'); size += 1
+    elif c < 10:
+        steps.append('one'); size += 1
+    elif c < 50:
+        name = rng.choice(['add', 'sub', 'mul', 'mul'])
+        forms = BIN_FORMS + ASSIGN_FORMS + (['mm'] if name == 'mul' and rep != 'const' else [])
+        form = rng.choice(forms)
+        i, j = h(), (h() if rng.randrange(4) else None)
+        if j is None: j = i
+        steps.append(f'{name}.{form},{i},{j}')
+        if form in BIN_FORMS: size += 1
+    elif c < 58:
+        steps.append(f"neg.{rng.choice(['m', 'v', 'r'])},{h()}"); size += 1
+    elif c < 66:
+        form = rng.choice(['', '.t'] if rep != 'const' else [''])
+        steps.append(f'double{form},{h()}'); size += 1
+    elif c < 80:
+        forms = ['m', 't'] + (['a', 'mm'] if rep != 'const' else [])
+        form = rng.choice(forms)
+        steps.append(f'square.{form},{h()}')
+        if form in ('m', 't'): size += 1
+    elif c < 90:
+        forms = [''] + (['.t', '.a'] if rep != 'const' else []) + (['.ai'] if rep == 'boxed' else [])
+        form = rng.choice(forms)
+        steps.append(f'div2{form},{h()}')
+        if form in ('', '.t'): size += 1
+    elif c < 94:
+        if rep != 'boxed':
+            steps.append(f'select,{h()},{h()},{rng.randrange(2)}'); size += 1
+    elif c < 97:
+        if rep != 'const':
+            steps.append(f'copy,{h()},{h()}')
+    else:
+        if rep == 'const':
+            steps.append('conv'); rep = 'dyn'
+        elif rep == 'dyn' and rng.randrange(2):
+            steps.append('conv'); rep = 'boxed'
+    return size, rep
+
+
 def history(rng, kind, n, m, length):
     """a list of step strings valid for the representation the history is in at each point"""
-    rep = {'dyn': 'dyn', 'dynv': 'dyn', 'const': 'const', 'boxed': 'boxed', 'boxedv': 'boxed'}[kind]
+    rep = REP_OF[kind]
     steps = []
     size = 0
     # seed values
@@ -71,49 +123,142 @@ def history(rng, kind, n, m, length):
         else: steps.append('new,' + hx(operand(rng, n, m)))
         size += 1
     while len(steps) < length:
-        h = lambda: rng.randrange(size) if rng.randrange(3) else size - 1 - rng.randrange(min(size, 3))
-        c = rng.randrange(100)
-        if c < 6:
-            steps.append('new,' + hx(operand(rng, n, m))); size += 1
-        elif c < 8:
-            steps.append('zero'); size += 1
-        elif c < 10:
-            steps.append('one'); size += 1
-        elif c < 50:
-            name = rng.choice(['add', 'sub', 'mul', 'mul'])
-            forms = BIN_FORMS + ASSIGN_FORMS + (['mm'] if name == 'mul' and rep != 'const' else [])
-            form = rng.choice(forms)
-            i, j = h(), (h() if rng.randrange(4) else None)
-            if j is None: j = i
-            steps.append(f'{name}.{form},{i},{j}')
-            if form in BIN_FORMS: size += 1
-        elif c < 58:
-            steps.append(f"neg.{rng.choice(['m', 'v', 'r'])},{h()}"); size += 1
-        elif c < 66:
-            form = rng.choice(['', '.t'] if rep != 'const' else [''])
-            steps.append(f'double{form},{h()}'); size += 1
-        elif c < 80:
-            forms = ['m', 't'] + (['a', 'mm'] if rep != 'const' else [])
-            form = rng.choice(forms)
-            steps.append(f'square.{form},{h()}')
-            if form in ('m', 't'): size += 1
-        elif c < 90:
-            forms = [''] + (['.t', '.a'] if rep != 'const' else []) + (['.ai'] if rep == 'boxed' else [])
-            form = rng.choice(forms)
-            steps.append(f'div2{form},{h()}')
-            if form in ('', '.t'): size += 1
-        elif c < 94:
-            if rep != 'boxed':
-                steps.append(f'select,{h()},{h()},{rng.randrange(2)}'); size += 1
-        elif c < 97:
-            if rep != 'const':
-                steps.append(f'copy,{h()},{h()}')
-        else:
-            if rep == 'const':
-                steps.append('conv'); rep = 'dyn'
-            elif rep == 'dyn' and rng.randrange(2):
-                steps.append('conv'); rep = 'boxed'
+        size, rep = one_step(rng, rep, size, n, m, steps)
     return steps
+
+
+# ---------------------------------------------------------------- coverage round: the remaining public forms
+
+def canonical(rng, n, m):
+    """a caller-supplied Montgomery representative; the property only speaks about canonical ones (< m)"""
+    R = 1 << (64 * n)
+    k = rng.randrange(8)
+    if k == 0: return 0
+    if k == 1: return 1 % m
+    if k == 2: return m - 1
+    if k == 3: return (m - 1) // 2
+    if k == 4: return R % m                 # the representative of 1
+    if k == 5: return (m + 1) // 2 % m
+    return rng.randrange(m)
+
+
+def x_step(rng, rep, size, n, m, steps):
+    """append one of the coverage-round steps valid in representation `rep`; returns the new size"""
+    h = lambda: rng.randrange(size) if rng.randrange(3) else size - 1 - rng.randrange(min(size, 3))
+    pool = ['frommont', 'frommont', 'zeroize', 'eq', 'eq', 'eqdup', 'obs.t', 'obs.tm']
+    if rep != 'boxed': pool += ['setmont', 'setmont']
+    if rep != 'const': pool += ['lincomb', 'lincomb', 'lincomb', 'new.t', 'zero.t', 'one.t', 'obs.p', 'obs.pt']
+    if rep == 'boxed': pool += ['new.arc', 'new.arc', 'obs.z', 'obs.z', 'obs.bp']
+    if rep == 'const': pool += ['zero.d', 'zero.z', 'obs.z', 'obs.z']
+    c = rng.choice(pool)
+    if c == 'frommont':
+        steps.append('frommont,' + hx(canonical(rng, n, m))); size += 1
+    elif c == 'setmont':
+        steps.append(f'setmont,{h()},{hx(canonical(rng, n, m))}')
+    elif c == 'zeroize':
+        i = h()
+        steps.append(f'zeroize,{i}')
+        if rng.randrange(2):                     # the zeroized value IS zero
+            steps.append('zero'); size += 1
+            steps.append(f'eq,{i},{size - 1}')
+    elif c == 'eq':
+        i = h()
+        steps.append(f'eq,{i},{i if rng.randrange(3) == 0 else h()}')
+    elif c == 'eqdup':                           # two handles holding the same value
+        i, j = h(), h()
+        if rep == 'boxed':
+            steps.append(f'copy,{i},{j}')
+            steps.append(f'eq,{i},{j}')
+        else:
+            b = rng.randrange(2)
+            steps.append(f'select,{i},{j},{b}'); size += 1
+            steps.append(f'eq,{size - 1},{j if b else i}')
+            steps.append(f'eq,{size - 1},{i if b else j}')
+    elif c == 'lincomb':
+        # 1..9 products: moduli without leading zero bits take one window per product (max_accum = 1), the others
+        # 2^lz products per window
+        k = rng.choice([1, 1, 2, 2, 3, 4, 5, 9, 17])
+        ps = []
+        for _ in range(k):
+            i = h()
+            ps += [i, i if rng.randrange(5) == 0 else h()]
+        steps.append('lincomb.t,' + ','.join(map(str, ps))); size += 1
+    elif c in ('new.t', 'new.arc'):
+        steps.append(f'{c},{hx(operand(rng, n, m))}'); size += 1
+    elif c in ('zero.t', 'one.t', 'zero.d', 'zero.z'):
+        steps.append(c); size += 1
+    else:                                        # obs.*
+        steps.append(f'{c},{h()}')
+    return size
+
+
+def history_x(rng, kind, n, m, length):
+    """a history mixing the original steps with the coverage-round ones"""
+    rep = REP_OF[kind]
+    steps = []
+    size = 0
+    for _ in range(rng.randrange(2, 5)):
+        c = rng.randrange(8)
+        if c == 0: steps.append('zero.t' if rep != 'const' else rng.choice(['zero.d', 'zero.z']))
+        elif c == 1: steps.append('one.t' if rep != 'const' else 'one')
+        elif c == 2: steps.append('frommont,' + hx(canonical(rng, n, m)))
+        else: steps.append(('new.t,' if rep != 'const' and rng.randrange(2) else 'new,') + hx(operand(rng, n, m)))
+        size += 1
+    while len(steps) < length:
+        if rng.randrange(100) < 45:
+            size = x_step(rng, rep, size, n, m, steps)
+        else:
+            size, rep = one_step(rng, rep, size, n, m, steps)
+    return steps
+
+
+def cov_lines(tier, rng, consts):
+    """coverage round: trait constructors, `ct_eq` of parameter sets, histories with the additional steps"""
+    quick = tier == 'quick'
+    W = 1 << 64
+    boxed_widths = list(range(1, 13)) + [17, 33] if quick else list(range(1, 34))
+    for n in FIXED:
+        for m in moduli(rng, n):
+            yield f"c08.params dynt {n} {hx(m)}"
+            yield f"c08.params boxedt {n} {hx(m)}"
+            # equal, low limb / high limb / one bit different, neighbours
+            R = 1 << (64 * n)
+            others = [m, (m + 2) % R | 1, m ^ (1 << (64 * n - 1)), m ^ (1 << rng.randrange(1, 64 * n)) if n * 64 > 1 else m,
+                      rng.getrandbits(64 * n) | 1, 1, R - 1]
+            for m2 in dict.fromkeys(x for x in others if 0 < x < R and x & 1):
+                yield f"c08.params_cteq {n} {hx(m)} {hx(m2)}"
+    for n in boxed_widths:
+        if n in FIXED: continue
+        for m in moduli(rng, n)[:4]:
+            yield f"c08.params boxedt {n} {hx(m)}"
+    # histories
+    maxlen = 48 if quick else 160
+    for rep in range(2 if quick else 20):
+        for n in FIXED:
+            if quick and n >= 16 and rep >= 1: continue
+            lim = maxlen if n <= 8 else max(12, maxlen // (n // 4))
+            for m in moduli(rng, n):
+                kind = rng.choice(['dyn', 'dynv', 'dynt'])
+                yield f"c08.hist {kind} {n} {hx(m)} {';'.join(history_x(rng, kind, n, m, rng.randrange(4, lim + 1)))}"
+        for n in boxed_widths:
+            if quick and n > 12 and rep >= 1: continue
+            lim = maxlen if n <= 8 else max(12, maxlen // (n // 4))
+            for m in moduli(rng, n):
+                kind = rng.choice(['boxed', 'boxedv', 'boxedt'])
+                yield f"c08.hist {kind} {n} {hx(m)} {';'.join(history_x(rng, kind, n, m, rng.randrange(4, lim + 1)))}"
+        for n, m in consts:
+            if quick and n >= 16 and rep >= 1: continue
+            lim = maxlen if n <= 8 else max(12, maxlen // (n // 4))
+            yield f"c08.hist const {n} {hx(m)} {';'.join(history_x(rng, 'const', n, m, rng.randrange(4, lim + 1)))}"
+    for _ in range(2500 if quick else 60000):
+        n = rng.choice([1, 1, 2, 2, 3, 4] if quick else [1, 1, 2, 2, 3, 4, 6, 8])
+        m = rng.choice(moduli(rng, n))
+        kind = rng.choice(['dyn', 'dynv', 'dynt', 'boxed', 'boxedv', 'boxedt'])
+        yield f"c08.hist {kind} {n} {hx(m)} {';'.join(history_x(rng, kind, n, m, rng.randrange(3, 17)))}"
+    small_consts = [(n, m) for n, m in consts if n <= 4]
+    for _ in range(400 if quick else 8000):
+        n, m = rng.choice(small_consts)
+        yield f"c08.hist const {n} {hx(m)} {';'.join(history_x(rng, 'const', n, m, rng.randrange(3, 17)))}"
 
 
 def hist_line(rng, kind, n, m, length):
@@ -250,6 +395,9 @@ def gen(tier, rng):
     #      the public lines above are the same as before the hooks existed)
     yield from hook_lines(tier, random.Random(rng.getrandbits(32)), consts)
 
+    # ---- coverage round (own PRNG stream again: everything above is unchanged)
+    yield from cov_lines(tier, random.Random(rng.getrandbits(32)), consts)
+
 
 def with_all_fixed():
     return [1, 2, 3, 4, 5, 6, 7, 8, 12, 16, 32]
@@ -259,5 +407,5 @@ def nontrivial(line):
     t = line.split()
     if t[0] == 'c08.hist':
         steps = t[4].split(';')
-        return len(steps) >= 4 and any(s.startswith(('mul', 'square')) for s in steps)
+        return len(steps) >= 4 and any(s.startswith(('mul', 'square', 'lincomb')) for s in steps)
     return any(len(x) > 2 for x in t[2:])
